@@ -528,16 +528,18 @@ def compare_parseS(cases, res):
                 res.disagreements.append({'stream': stream, 'case': c, 'model': 'none', 'real': repr(want)[:600]})
             continue
         got = norm_consts(model[1]) if isinstance(model, list) and len(model) == 2 else model
+        if has_annotation(want):
+            # known finding C13-type-params: the list is dropped, the model says so too
+            res.count(what + ':type-params')
+            continue
         res.count(what + ':ok')
         if got != want:
             res.disagreements.append({'stream': stream, 'case': c, 'model': repr(got)[:900], 'real': repr(want)[:900]})
 
 
 def has_annotation(w):
-    """parameter annotations / type parameter lists: not read back by pyParseS"""
+    """type parameter lists (known finding): not read back by pyParseS"""
     if isinstance(w, list):
-        if len(w) == 4 and w[0] == 'param' and isinstance(w[0], Atom) and w[2] != 'N':
-            return True
         if w and isinstance(w[0], Atom) and w[0] in ('FunctionDef', 'ClassDef') and w[-1] == 'T':
             return True
         return any(has_annotation(x) for x in w)
